@@ -43,14 +43,12 @@ def rule_emit(m, rep, rid='R1', counters=False):
     okp = payload[0] == 'adt' and payload[2] == 'Some' and is_whole_param(dict(payload[3])['0'], 2)
     rep.ob(rid, 'emit/enqueues-the-metric-text', okp, body.where(sb),
            'payload is Some(owned copy of the whole metric)' if okp else 'payload is %s' % fmt(payload))
-    ok_e, err_e, sws = outcomes(T, sb)
-    if not ok_e or not err_e:
-        rep.bad(rid, 'emit/result-depends-on-enqueue', body.where(sb), 'the try_send result is not examined')
+    rc = result_cases(T, sb)
+    r_ok, r_err = rc['ok'], rc['err']
+    if rc['?'] or not r_ok or not r_err:
+        rep.bad(rid, 'emit/result-depends-on-enqueue', body.where(sb),
+                'the result of emit does not depend on the try_send outcome on every path (unconditional results: %s)' % [fmt(x)[:80] for x in rc['?']])
         return
-    r_err = ret_terms(T, [s for (b, s), v in outcome_edges(T, sb).items() if v == 'err' and
-                          T.switch_facts(b)[0][0] == 'discr'] or err_e)
-    r_ok = ret_terms(T, [s for (b, s), v in outcome_edges(T, sb).items() if v == 'ok' and
-                         T.switch_facts(b)[0][0] == 'discr'] or ok_e)
     g1 = bool(r_err) and all(r[0] == 'adt' and r[2] == 'Err' for r in r_err)
     rep.ob(rid, 'emit/refused-means-error', g1, body.where(sb),
            'Full/Disconnected => Err' if g1 else 'a refused enqueue can return %s' % [fmt(x) for x in r_err])
@@ -79,8 +77,8 @@ def rule_emit(m, rep, rid='R1', counters=False):
                 bad.append('accepted emit counted %d times' % c['sub'])
             if fact == 'err' and c['sub'] != 0:
                 bad.append('refused emit counted as submitted')
-            if fact == '?':
-                bad.append('a path does not examine the enqueue result')
+            if fact == '?' and c['sub'] != 0:
+                bad.append('submitted is incremented on a path that does not know whether the enqueue succeeded')
             if c['other']:
                 bad.append('emit touches drained/panics')
         pre = [b for b in sub_blocks if sb in reach(body, [b])]
